@@ -33,6 +33,17 @@ type action struct {
 	Doc int    `json:"doc"`
 	Ctx int    `json:"ctx"`
 	K   int    `json:"k"`
+	// Plain: this action walks the document through the navigator WITHOUT the optional
+	// NamespaceURL() method (names then match by prefix), the others through the one with it
+	Plain bool `json:"plain,omitempty"`
+}
+
+// flavourFor is the navigator flavour of one action.
+func flavourFor(l *harness.Live, plain bool) xdoc.Flavour {
+	if plain {
+		return xdoc.Plain
+	}
+	return l.Flavour
 }
 
 func historyOf(l *harness.Live) []action {
@@ -121,7 +132,7 @@ func oracleC04(l *harness.Live) (c04Info, *harness.Failure) {
 			if f != nil {
 				return info, f
 			}
-			observe(other, d, l.Flavour, ctx, action{Op: "selectPrefix", K: a.K})
+			observe(other, d, flavourFor(l, a.Plain), ctx, action{Op: "selectPrefix", K: a.K})
 			info.trace = append(info.trace, "recompile")
 			continue
 		}
@@ -129,8 +140,8 @@ func oracleC04(l *harness.Live) (c04Info, *harness.Failure) {
 		if f != nil {
 			return info, f
 		}
-		want, _ := observe(fresh, d, l.Flavour, ctx, a)
-		got, ne := observe(shared, d, l.Flavour, ctx, a)
+		want, _ := observe(fresh, d, flavourFor(l, a.Plain), ctx, a)
+		got, ne := observe(shared, d, flavourFor(l, a.Plain), ctx, a)
 		info.trace = append(info.trace, fmt.Sprintf("%s(doc%d,%s,k=%d)=%s", a.Op, a.Doc%2, ctx.Desc(), a.K, got))
 		if got != want {
 			return info, harness.Failf(want, got, "action %d %s on doc%d at %s: the reused compiled expression differs from a freshly compiled one", i+1, a.Op, a.Doc%2, ctx.Desc())
@@ -252,18 +263,33 @@ func anyExpr(g *xgen.G, rt *rapid.T, ctx *xdoc.Node) (e xast.Expr, nodeSet bool)
 
 func TestC04Rapid(t *testing.T) {
 	runRapid(t, uC04, func(rt *rapid.T) {
-		shapedOpts, _ := xgen.Shaped(rt, xgen.DefaultDoc())
+		base := xgen.DefaultDoc()
+		// one case in six: documents with prefixes and namespaces, prefixed name tests, the
+		// expression compiled with a namespace map, and the actions divided between the two
+		// navigator flavours - one compiled expression serves both kinds of navigator
+		nsMode := rapid.IntRange(0, 5).Draw(rt, "nsmode") == 5
+		var nsmap map[string]string
+		if nsMode {
+			base.ElNames = xgen.ElNames2
+			base.NS = &xgen.NSOpts{Prefixes: []string{"", "p", "q", "r"}, URIs: []string{"", "u1", "u2"}}
+			nsmap = map[string]string{"p": rapid.SampledFrom([]string{"u1", "u2"}).Draw(rt, "bind-p"), "q": rapid.SampledFrom([]string{"u1", "u2"}).Draw(rt, "bind-q")}
+		}
+		shapedOpts, _ := xgen.Shaped(rt, base)
 		doc := xgen.Doc(rt, shapedOpts)
 		var doc2 *xdoc.Doc
 		if rapid.Bool().Draw(rt, "doc2-related") {
 			// a slightly edited copy: same expression, same "place", different answer
-			doc2 = xgen.MutateDoc(rt, doc, xgen.DefaultDoc())
+			doc2 = xgen.MutateDoc(rt, doc, base)
 		} else {
-			doc2 = xgen.Doc(rt, xgen.DefaultDoc())
+			doc2 = xgen.Doc(rt, base)
 		}
 		ctx := xgen.Context(rt, doc, 4)
 		g := xgen.NewG(rt, doc)
 		g.ExtraFuncs = true
+		if nsMode {
+			g.ElNames = xgen.ElNames2
+			g.Prefixes = []string{"p", "q"}
+		}
 		e, nodeSet := anyExpr(g, rt, ctx)
 		if nodeSet && rapid.IntRange(0, 9).Draw(rt, "reverse") == 0 {
 			e = &xast.Call{Name: "reverse", Args: []xast.Expr{e}} // a node-set function: Select is part of its contract
@@ -296,10 +322,16 @@ func TestC04Rapid(t *testing.T) {
 			if !nodeSet && hist[i].Op == "recompile" {
 				hist[i].K = 0
 			}
+			if nsMode {
+				hist[i].Plain = rapid.Bool().Draw(rt, "plainnav")
+			}
 		}
 		l := &harness.Live{Property: "C04", Check: "C04/history", Doc: doc, Doc2: doc2, Ctx: ctx, AST: e, Expr: xast.Render(e), Flavour: flavourOf(rt),
 			Params: map[string]interface{}{"history": hist, "node_set": nodeSet}}
-		if _, err, _ := harness.Compile(l.Expr, nil, false); err != nil {
+		if nsMode {
+			l.Flavour, l.HasNS, l.NSMap = xdoc.NS, true, nsmap
+		}
+		if _, err, _ := harness.Compile(l.Expr, l.NSMap, l.HasNS); err != nil {
 			uC04.Skip() // an unconstrained expression the compiler rejects
 			return
 		}
